@@ -157,6 +157,21 @@ def dep_pkg_types(a):
 
 
 @edit
+def paged_request_other_package(a):
+    """A paginated RPC whose request and response types come from another (installed) proto package."""
+    a.need_module('google.cloud.location.locations_pb2')
+    a.rpc(method('ListDepots', '.google.cloud.location.ListLocationsRequest', '.google.cloud.location.ListLocationsResponse',
+                 http=('get', '/v1/{name=shelves/*}/depots')))
+
+
+@edit
+def empty_messages(a):
+    """Messages without any field, as request and as response."""
+    a.msg(message('PingRequest', []), message('PingResponse', []))
+    a.rpc(method('Ping', Q('PingRequest'), Q('PingResponse'), http=('get', '/v1/ping')))
+
+
+@edit
 def wkt_fields(a):
     a.msg(message('Wkt', [
         field('d', 1, '.google.protobuf.Duration'), field('s', 2, '.google.protobuf.Struct'),
